@@ -1,6 +1,58 @@
 (* C13 — Golomb-coded set filters never miss a member and all query strategies agree.
-   Only statements; every proof is `exact <lemma proved elsewhere>`. *)
-From BU Require Import Lib.Bytes Gcs.SipHash Gcs.Gcs Gcs.GcsProofs.
+   Only statements; every proof is `exact <lemma proved elsewhere>`.
+
+   [hash] stands for siphash.Sum64 (any function below 2^64), [sort] for sort.Slice (any function
+   returning a sorted permutation); the run driver instantiates them with Gcs/SipHash.v and the
+   insertion sort of Gcs/Sort.v (proved to be one in Gcs/GcsSortProofs.v). *)
+From BU Require Import Lib.Bytes Gcs.SipHash Gcs.Sort Gcs.Gcs Gcs.GcsProofs Gcs.GcsBitsProofs
+  Gcs.GcsMatchProofs Gcs.GcsTheorems Gcs.GcsCostProofs Gcs.GcsSortProofs.
+From Coq Require Import Sorting.Sorted Sorting.Permutation.
+
+(* reading N values from the encoding of an ascending list returns its deltas (and leaves the rest) *)
+Theorem C13_decode_encode : forall P last vals rest,
+  P <= 32 -> chain last vals ->
+  read_values (length vals) P (encode P last vals ++ rest) = Some (deltas last vals, rest).
+Proof. exact decode_encode. Qed.
+Print Assumptions C13_decode_encode.
+
+(* bytes written by the bit-stream writer read back as the same bits followed by fewer than 8 zero bits *)
+Theorem C13_pack_bits : forall bs, exists k, (k < 8)%nat /\ bits_of_bytes (pack bs) = bs ++ repeat false k.
+Proof. exact pack_bits. Qed.
+Print Assumptions C13_pack_bits.
+
+(* the <= 7 zero pad bits (indeed any run of zero bits) decode only to repeats of the last value *)
+Theorem C13_pad_repeats_last : forall P last, last < two64 ->
+  forall fuel k, (k < fuel)%nat -> exists j, decode_all fuel P (repeat false k) last = Ok (repeat last j).
+Proof. exact decode_all_pad. Qed.
+Print Assumptions C13_pad_repeats_last.
+
+(* a member is reported by the single-item query, by both strategies and by their dispatcher *)
+Theorem C13_member_matches : forall hash sort, hash_ok hash -> sort_ok sort ->
+  forall P M key data f, build hash sort P M key data = Ok f ->
+  forall d, In d data ->
+    gmatch hash f key d = Ok true /\
+    forall qs, In d qs ->
+      zip_match_any hash sort f key qs = Ok true /\
+      hash_match_any hash f key qs = Ok true /\
+      match_any hash sort f key qs = Ok true.
+Proof. exact member_matches_all. Qed.
+Print Assumptions C13_member_matches.
+
+(* the single-item query is exact: true iff the item's hashed value is the hashed value of a member *)
+Theorem C13_match_exact : forall hash sort, hash_ok hash -> sort_ok sort ->
+  forall P M key data f, build hash sort P M key data = Ok f ->
+  forall q, gmatch hash f key q = Ok true <-> exists d, In d data /\ hashed hash f key d = hashed hash f key q.
+Proof. exact match_exact. Qed.
+Print Assumptions C13_match_exact.
+
+Theorem C13_empty_filter_none : forall hash sort, hash_ok hash -> sort_ok sort ->
+  forall P M key f, build hash sort P M key [] = Ok f ->
+    (forall q, gmatch hash f key q = Ok false) /\
+    (forall qs, zip_match_any hash sort f key qs = Ok false /\
+                hash_match_any hash f key qs = Ok false /\
+                match_any hash sort f key qs = Ok false).
+Proof. exact empty_filter_none_all. Qed.
+Print Assumptions C13_empty_filter_none.
 
 (* an empty query matches nothing, whatever the filter (built or deserialised) *)
 Theorem C13_empty_query_none : forall hash sort f key,
@@ -9,3 +61,66 @@ Theorem C13_empty_query_none : forall hash sort f key,
   match_any hash sort f key [] = Ok false.
 Proof. exact empty_query_none. Qed.
 Print Assumptions C13_empty_query_none.
+
+(* on a built filter each any-of form is true exactly when some queried item matches individually *)
+Theorem C13_strategies_agree : forall hash sort, hash_ok hash -> sort_ok sort ->
+  forall P M key data f, build hash sort P M key data = Ok f ->
+  forall qs,
+    let some_item := exists q, In q qs /\ gmatch hash f key q = Ok true in
+    (zip_match_any hash sort f key qs = Ok true <-> some_item) /\
+    (hash_match_any hash f key qs = Ok true <-> some_item) /\
+    (match_any hash sort f key qs = Ok true <-> some_item).
+Proof. exact strategies_agree_all. Qed.
+Print Assumptions C13_strategies_agree.
+
+(* ... and none of them fails: all three return Ok of the same boolean *)
+Theorem C13_strategies_agree_bool : forall hash sort, hash_ok hash -> sort_ok sort ->
+  forall P M key data f, build hash sort P M key data = Ok f ->
+  forall qs,
+    let b := existsb (fun q => match gmatch hash f key q with Ok true => true | _ => false end) qs in
+    zip_match_any hash sort f key qs = Ok b /\
+    hash_match_any hash f key qs = Ok b /\
+    match_any hash sort f key qs = Ok b.
+Proof. exact strategies_agree_bool. Qed.
+Print Assumptions C13_strategies_agree_bool.
+
+(* C08 gcs_match_cost: on ANY filter (hostile N, P, bytes) the four query forms terminate within the
+   fuel 8*|bytes|+1 (never the out-of-fuel value), because every successful code read consumes at
+   least P+1 bits of the 8*|bytes| available: at most 8*|bytes| bit reads succeed *)
+Theorem C13_match_cost : forall hash sort f key q qs,
+  (exists b, gmatch hash f key q = Ok b) /\
+  (exists b, zip_match_any hash sort f key qs = Ok b) /\
+  (exists b, hash_match_any hash f key qs = Ok b) /\
+  (exists b, match_any hash sort f key qs = Ok b) /\
+  (forall bs d rest, read_full (f_p f) bs = Some (d, rest) ->
+     (length rest + N.to_nat (f_p f) + 1 <= length bs)%nat).
+Proof. exact match_cost. Qed.
+Print Assumptions C13_match_cost.
+
+(* C08 gcs_alloc: the capacity HashMatchAny asks for, and the number of entries it then inserts, are
+   bounded by what the bytes can encode, whatever N claims *)
+Theorem C13_alloc_bound : forall f,
+  size_hint f <= N.of_nat (8 * length (f_data f)) / (f_p f + 1) /\
+  size_hint f <= f_n f /\
+  forall vs, decode_all (fuel_of f) (f_p f) (bits_of_bytes (f_data f)) 0 = Ok vs ->
+             N.of_nat (length vs) <= N.of_nat (8 * length (f_data f)) / (f_p f + 1).
+Proof. exact alloc_bound. Qed.
+Print Assumptions C13_alloc_bound.
+
+(* the hypotheses are satisfiable: SipHash-2-4 (cut to 64 bits) and insertion sort *)
+Definition sip64 (k d : list N) : N := w64 (siphash k d).
+Example C13_hypotheses_met : hash_ok sip64 /\ sort_ok isort.
+Proof.
+  split; [intros k d; apply N.mod_lt; discriminate | split; [exact isort_sorted | exact isort_perm]].
+Qed.
+
+Example C13_instance :
+  let key := [0;1;2;3;4;5;6;7;8;9;10;11;12;13;14;15] in
+  let data := [[1;2;3]; [4;5]; [6]; []; [7;7;7;7;7;7;7;7;7]] in
+  exists f, build sip64 isort 19 784931 key data = Ok f /\
+            f_data f = [177; 157; 250; 194; 217; 184; 93; 84; 230; 40; 72; 176; 188] /\
+            gmatch sip64 f key [6] = Ok true /\ gmatch sip64 f key [9] = Ok false /\
+            match_any sip64 isort f key [[9]; [6]] = Ok true.
+Proof.
+  cbv zeta. eexists. split; [vm_compute; reflexivity|]. vm_compute. auto.
+Qed.
